@@ -53,6 +53,7 @@ MIN = {'quick': {'distinct': 250,
                                  ('directory round trip in two steps', 5),
                                  ('driver: equals library composition', 150),
                                  ('word with non-ASCII space character', 6),
+                                 ('driver with --counting', 100),
                                  ('TIGER-XML source without a node above the '
                                   'top constituent', 12),
                                  ('TIGER-XML source: one-token sentence '
@@ -175,9 +176,17 @@ def convert(ctx, src, dest, sfmt, dfmt, senc='utf-8', denc='utf-8',
         args += ['--src-opts'] + list(sopts)
     if dopts:
         args += ['--dest-opts'] + list(dopts)
+    convert.n += 1
+    if convert.n % 3 == 0:
+        # how often progress is reported is no business of the result
+        args += ['--counting', str((1, 2, 3, 7)[convert.n // 3 % 4])]
+        ctx.stratum('driver with --counting')
     rc, out, err = common.cli(args)
     ctx.hook('cli.transform')
     return rc, err
+
+
+convert.n = 0
 
 
 def words_pool(rng, enc, paren_ok):
